@@ -299,6 +299,13 @@ def main(argv=None):
             i += 1
         i += 1
     seed = int(os.environ.get("VERIF_SEED", "0") or 0)
+    # the parent only generates jobs, but check modules import harness modules that import asynq:
+    # make sure that is the snapshot of the working tree, never /repo's stale binaries
+    ppath, pnote = _build.get_build("pure")
+    if ppath is None:
+        print("HARNESS-ERROR property=%s: cannot snapshot %s: %s" % (prop, _build.REPO, pnote))
+        return 2
+    _build.activate(ppath, "pure")
     mod = importlib.import_module("mc.checks.%s" % prop.lower())
     if replay:
         return do_replay(mod, prop, replay)
@@ -392,6 +399,7 @@ def do_replay(mod, prop, path):
     if hasattr(mod, "worker_init"):
         mod.worker_init({"build": b, "tier": "quick", "hb": [0, 0, 0, 0], "wid": 0})
     vs = mod.replay(r["case"], {"build": b, "tier": "quick", "hb": [0, 0, 0, 0], "wid": 0})
+    sys.stdout, sys.stderr = sys.__stdout__, sys.__stderr__
     if vs:
         for v in vs:
             print("VIOLATION property=%s replay=%s" % (prop, path))
